@@ -214,6 +214,9 @@ func cfgValid(r *vh.Rand, n *node) {
 	for _, k := range n.kids {
 		cfgValid(r, k)
 	}
+	if n.kind == "const" && n.p[0] < 0 {
+		n.p[0] = 0 // validate:"min=0"
+	}
 	if n.kind == "once" && n.p[0] == 0 {
 		if r.Bool() {
 			n.kind, n.p = "const", []int64{0, int64(r.PickInt([]int{1000000, 1000000000}))}
